@@ -11,8 +11,11 @@ RULE = ("table N for N in 0..40 (the 25 ids and the absent ones; the extractor p
         "700 (thorough) and for one string of 900 / 3000 letters, 8 / 24 random split points otherwise; case: random re-casing masks; tail: every partial tail of length 0..2; "
         "lengths around block sizes (255..8194; to 262145 thorough); histories on one table instance (translate / re-weight in place / "
         "swap two entries' letters in place); the same under tables re-weighted (deep copy + OptimizeTable) from random coding sequences and under hand-written "
-        "text tables; the two error branches. Out of domain (correspondence only): strings with N/U/other ASCII letters, "
-        "non-ASCII runes, tables listing a triplet twice. non-trivial = the string holds at least one complete codon; distinct by case text")
+        "text tables; the two error branches; strings with N/U/gap letters and letters outside ASCII inserted (judged: a codon holding one "
+        "gives no residue, frames are counted in letters). Out of domain (correspondence only): tables listing a triplet twice or odd "
+        "triplets. Only the 25 x 64 cells (and table ids 0..40) are exhaustive; the string part of the quantifier is SAMPLED (the theorems "
+        "close it on the model). Every Translate call is preceded by a throw-away call that ends in a partial codon, so state kept "
+        "between calls is exposed. non-trivial = the string holds at least one complete codon; distinct by case text")
 EXHAUSTIVE = {"quick": True, "thorough": True}   # of the 25 x 64 cells (and table ids 0..40) only; strings are sampled, see RULE
 TRUSTED_BASE = ["Spec/Ncbi.lean: the 25 NCBI genetic codes (standard code, reassignments, start/stop lists) typed by hand from memory, no network; "
                 "no copy of gc.prt is pinned in the tree. An independent reviewer wrote the AAs/Starts lines of the 25 codes down from memory "
@@ -20,13 +23,14 @@ TRUSTED_BASE = ["Spec/Ncbi.lean: the 25 NCBI genetic codes (standard code, reass
                 "and codon.go's strings: no discrepancy (notes/reviews/C06.md). The spec's internal consistency is kernel-checked "
                 "(spec_standard_partition, spec_reassignments_consistent, spec_total, spec_starts_stops_consistent, spec_stops_are_star_cells). "
                 "NCBI codes 15 and 32 are not offered by the library and are outside the property; ids_complete would flag their addition",
-                "ASCII restriction: strings.ToUpper and the rune/byte mismatch of the 3-byte window are modelled on ASCII only "
-                "(the byte length of the window is modelled for every rune)",
+                "strings.ToUpper is modelled by the ASCII mapping; outside ASCII Unicode upper-casing never yields A, C, G or T (the only "
+                "non-ASCII letters with an ASCII upper case are dotless i and long s), so for tables over A/C/G/T the two agree on every string",
                 "Go map semantics (last write wins, missing key reads as \"\") as modelled by `mapGet`"]
 ASSUMPTIONS = ["concatenation law at the split points 0 and n (and tail cases with an empty stem): one piece is the empty string, which the API "
                "rejects (errEmtpySequenceString); the judge reads that error as the empty protein (class tag empty-piece; lemma "
                "translate_empty_piece shows the model does the same; translate_append_api is the law for two non-empty pieces)",
-               "inputs are ASCII (theorem hypothesis `Ascii s`); A/C/G/T in either case for the one-letter-per-codon clauses"]
+               "A/C/G/T in either case for the one-letter-per-codon clauses (translate_len, translate_map, translate_is_ncbi); the framing, "
+               "concatenation, tail and case laws hold for every string (no ASCII hypothesis since /repo 053f18d frames codons by letters)"]
 PARTIAL = []
 
 def small_table(r):
@@ -120,7 +124,17 @@ def cases(seed, tier):
         s = randcase(r, randword(r, ACGT, loglen(r, 1, 500)))
         yield ["split", "txt:" + tt, s, "all" if len(s) <= 200 else "0,1,2"]
         yield ["tail", "txt:" + tt, s, r.choice(["", "a", "CG"])]
-    # --- out of domain: correspondence only (not judged)
+    # --- letters other than A/C/G/T, inside and outside ASCII: judged (a codon holding one gives no residue; framing by letters)
+    for _ in range(30 if not thorough else 400):
+        i = r.choice(IDS)
+        s = list(randcase(r, randword(r, ACGT, loglen(r, 3, 300))))
+        for _ in range(r.randint(1, 4)):
+            s.insert(r.randrange(0, len(s) + 1), r.choice(["N", "n", "U", "-", " ", "R", "é", "中", "\U0001F600", "ı", "ſ", "É", "Ａ"]))
+        s = "".join(s)
+        yield ["split", "id:%d" % i, s, "all" if len(s) <= 120 else "0,1,2,3"]
+        yield ["case", "id:%d" % i, s, randword(r, "ul", 4)]
+        yield ["tail", "id:%d" % i, s, r.choice(["", "é", "Aé", "N"])]
+    # --- tables that are not well formed: correspondence only (not judged)
     dup = "ATG/TAA/X:AAA=1,AAC=2;Y:AAA=3;Z:aaa=1,AA=1,AAAA=1;:CCC=1;LONG:GGG=1"
     for s in ["AAAAACAAGGGGCCC", "aaaAAAA", "ATGNNNTAA", "AUGUUU", "ATG-TAA", "ATG TAA", "ATGRYK", "NNN", "ATGTAAX"]:
         yield ["tr", "id:1", s]
@@ -137,14 +151,15 @@ def cases(seed, tier):
 
 TECHNIQUE = ("Lean 4 proof: decide on the regenerated tables against an independently shaped NCBI spec (25 x 64 cells, start and stop "
              "lists), induction over strings for the frame / concatenation / case laws; differential correspondence of Translate")
-LEVEL_TEXT = ("Table clauses: ids_complete, codon_by_codon (all 1600 cells: NCBI's residue = what the compiled Translate returned = what the "
+LEVEL_TEXT = ("Spec self-consistency (standard code partitions the 64 codons, no repeated or no-op reassignment, stops = '*' cells except "
+              "codes 27/28/31) is kernel-checked. Table clauses: ids_complete, codon_by_codon (all 1600 cells: NCBI's residue = what the compiled Translate returned = what the "
               "model reads from the regenerated table), starts_eq, stops_eq, triplets_partition are decided by the kernel on tables "
-              "re-extracted from the compiled code on every run. String clauses are theorems for every table and every ASCII string of any "
-              "length: translate_chunks, translate_append, translate_tail, translate_case (+ upper/lower corollary), translate_len and "
+              "re-extracted from the compiled code on every run. String clauses are theorems for every table and every string of any "
+              "length and any letters (codons are framed by letters): translate_chunks, translate_append, translate_tail, translate_case (+ upper/lower corollary), translate_foreign_codon (a codon holding a non-A/C/G/T letter gives no residue), translate_append_api / translate_empty_piece (the law at the API), translate_len and "
               "translate_map (one letter per codon, for every table satisfying the weight-free partition predicate; reweight_wf shows "
               "re-weighting preserves it), translate_is_ncbi (the model's translation under a default table is NCBI's, any length), and the "
-              "two error branches. The loop model (rune loop, 3-byte window, upper-casing, last-write-wins map, missing key = \"\") is tied "
-              "to codon.Translate by correspondence on every case, including out-of-domain letters, non-ASCII runes and tables that list a "
+              "two error branches. The loop model (rune loop, 3-letter window, upper-casing, last-write-wins map, missing key = \"\") is tied "
+              "to codon.Translate by correspondence on every case, including foreign letters, letters outside ASCII and tables that list a "
               "triplet twice; every real output is also judged against the NCBI spec directly.")
 LEVEL_NOTE = ("Trusted: Lean kernel; extractor and harness; the hand-typed NCBI spec (it agrees with the code's differently shaped encoding on "
               "all 1600 cells and all start/stop lists); ASCII modelling of strings.ToUpper.")
